@@ -400,10 +400,23 @@ pub fn gen_model(d: &Data, r: &mut Rng) -> Model {
             list.insert(at, String::new());
         }
     }
-    let words = gen_words(d, r);
+    let mut words = gen_words(d, r);
     let mut rules = gen_groups(d, r, 4, wild);
     maybe_untitled_first(&mut rules, d, r);
     maybe_untitled_after_description(&mut rules, d, r);
+    // inputs the library refuses: a rule that does not parse, a word that does not parse, or both
+    // (which of the errors is reported is the library's decision, and the tool must report that one)
+    if r.chance(1, 8) && !rules.is_empty() {
+        let bad: &str = *r.pick(&["a >", "> b", "a > b > c", "[+foo] > a", "a > b /", "a > [+voice", "a > b / _ _", "V > [tone: x]"][..]);
+        let g = r.below(rules.len());
+        let at = r.below(rules[g].rule.len() + 1);
+        rules[g].rule.insert(at, bad.to_string());
+    }
+    if r.chance(1, 8) && !words.is_empty() {
+        let bad: &str = *r.pick(&["k%ta", "pa&ta", "ta:[", "q=a", "t͡", "a᷄᷄᷄᷄᷄x)"][..]);
+        let k = r.below(words.len());
+        words[k] = bad.to_string();
+    }
     Model { into, from, words, rules }
 }
 
